@@ -129,9 +129,18 @@ def refs_well_founded(doc):
             t = t.replace("~1", "/").replace("~0", "~")
             if isinstance(cur, dict) and t in cur:
                 cur = cur[t]
+            elif isinstance(cur, list) and t.isdigit() and int(t) < len(cur):
+                cur = cur[int(t)]
             else:
                 return None
         return cur
+
+    def chain_end(ref, hops=6):
+        """the element a chain of reference objects ends at (None: dangling, too long or cyclic)"""
+        t = target(ref)
+        while isinstance(t, dict) and isinstance(t.get("$ref"), str) and hops > 0:
+            t, hops = target(t["$ref"]), hops - 1
+        return t if isinstance(t, dict) and "$ref" not in t else None
 
     def walk(x, where):
         nonlocal ok
@@ -142,7 +151,11 @@ def refs_well_founded(doc):
                 fits = sect is not None and r.startswith(sect)
                 if where == "schema" and re.match(r"^#/(responses|parameters)/[^/]+/schema$", r):
                     fits = True    # the schema OF a shared response or body parameter is a schema too
-                if not fits or not isinstance(target(r), dict) or "$ref" in target(r):
+                chained = where in ("parameter", "response") and (r.startswith("#/x-fragments/") or re.match(r"^#/paths/[^/]+/[a-z]+/parameters/\d+$", r))
+                if chained:
+                    if chain_end(r) is None:
+                        ok = False
+                elif not fits or not isinstance(target(r), dict) or "$ref" in target(r):
                     ok = False
             for k, v in x.items():
                 if k.startswith("x-") or k in ("default", "example", "examples", "enum"):
@@ -234,7 +247,9 @@ def with_refs(doc, rng):
             ps = op.get("parameters")
             if isinstance(ps, list) and len(ps) == 1 and "$ref" in ps[0] and "parameters" not in item and rng.random() < 0.5:
                 item["parameters"] = [{"$ref": "#/paths/" + p.replace("~", "~0").replace("/", "~1") + "/" + m + "/parameters/0"}]
-            elif not ps and rng.random() < 0.4:
+            elif rng.random() < 0.3:
+                # (instead of the parameters the operation had: the same parameter listed twice under two spellings would be a
+                # duplicate after expansion, which the schema forbids for another reason)
                 op["parameters"] = [{"$ref": "#/x-fragments/payload"}]
             rs = op.get("responses")
             if isinstance(rs, dict) and rng.random() < 0.3:
@@ -268,6 +283,13 @@ def check(docs):
             seen.add(key)
             if d.get("paths"):
                 res["distinct_nontrivial"] += 1
+        if "x-fragments" in d:
+            t = json.dumps(d)
+            res["stats"]["with_reference_chains"] = res["stats"].get("with_reference_chains", 0) + 1
+            if "#/x-fragments/payload" in t[t.index('"paths"'):] if '"paths"' in t else False:
+                res["stats"]["chain_through_fragment_used"] = res["stats"].get("chain_through_fragment_used", 0) + 1
+            if "/parameters/0" in t:
+                res["stats"]["chain_through_list_member_used"] = res["stats"].get("chain_through_list_member_used", 0) + 1
         fails = []
         if "panic" in o:
             fails.append(("panic", o["panic"], []))
